@@ -1,5 +1,6 @@
 import RV.C07.Model
 import RV.C07.ReadTerm
+import RV.C07.ValModel
 import RV.Base.Proto
 /-
   C07 driver (stateless).  Strings cross the protocol as comma-separated decimal code points,
@@ -16,6 +17,11 @@ import RV.Base.Proto
     rt T              -> rebuild (reduce T)  as a term | error:<e>
     mk <norm> <lex> <lang|-> <dt|->  -> Literal.__new__ | error:<e>
     sort T1 … Tn      -> the terms sorted with `<` (insertion sort), separated by ` ; `
+    vcmp A B          -> gt=<b> lt=<b> le=<b|!> ge=<b|!> eq=<b|!> ne=<b|!>   the six operators on two literals WITH values
+                         (`!` = raises TypeError); a valued literal A is  <lex> <dt|-> <lang|-> <val> <ill 0|1>  with
+                         <val> = - (None) | s:<str> | b:<0|1> | n:<num>/<den> | pinf | ninf | nan | t:<wall µs>/<offset µs|-> | d:<ordinal>
+    vsort A1 … An     -> the literals sorted with `<`, each printed as a term, separated by ` ; `
+    msort X1 … Xn     -> a MIXED list sorted with `<`; X = a non-literal term (I|G|R|B|V <str>) or `W` + a valued literal
 -/
 open RV RV.C07 RV.Proto
 
@@ -69,6 +75,59 @@ def pairs? : List String → Option (List (Str × Str))
     let a ← str? a; let b ← str? b
     let r ← pairs? rest
     pure ((a, b) :: r)
+  | _ => none
+
+def val? (w : String) : Option (Option PyVal) :=
+  if w = "-" then some none
+  else if w = "pinf" then some (some .pinf)
+  else if w = "ninf" then some (some .ninf)
+  else if w = "nan" then some (some .nan)
+  else
+    match w.splitOn ":" with
+    | ["s", x] => (str? x).map (fun s => some (.str s))
+    | ["b", x] => if x = "1" then some (some (.bool true)) else if x = "0" then some (some (.bool false)) else none
+    | ["n", x] =>
+      match x.splitOn "/" with
+      | [p, q] => do
+        let p ← p.toInt?; let q ← q.toNat?
+        if q = 0 then none else pure (some (.num (mkRat p q)))
+      | _ => none
+    | ["t", x] =>
+      match x.splitOn "/" with
+      | [p, q] => do
+        let p ← p.toInt?
+        if q = "-" then pure (some (.dtm p none)) else do
+          let q ← q.toInt?
+          pure (some (.dtm p (some q)))
+      | _ => none
+    | ["d", x] => x.toInt?.map (fun n => some (.date n))
+    | _ => none
+
+def vlit? : List String → Option (VLit × List String)
+  | x :: d :: l :: v :: i :: rest => do
+    let x ← str? x; let d ← ostr? d; let l ← ostr? l; let v ← val? v
+    if i = "0" ∨ i = "1" then pure (⟨x, d, l, v, i = "1"⟩, rest) else none
+  | _ => none
+
+partial def vlits? (ws : List String) : Option (List VLit) :=
+  match ws with
+  | [] => some []
+  | _ => do
+    let (t, rest) ← vlit? ws
+    let ts ← vlits? rest
+    pure (t :: ts)
+
+partial def vterms? (ws : List String) : Option (List VTerm) :=
+  match ws with
+  | [] => some []
+  | "W" :: rest => do
+    let (a, rest') ← vlit? rest
+    let ts ← vterms? rest'
+    pure (.lit a :: ts)
+  | c :: x :: rest => do
+    let c ← cls? c; let x ← str? x
+    let ts ← vterms? rest
+    pure (.node c x :: ts)
   | _ => none
 
 def b01 (b : Bool) : String := if b then "1" else "0"
@@ -138,6 +197,23 @@ def step (s : Unit) : List String → Unit × String
   | "sort" :: rest =>
     match terms? rest with
     | some ts => (s, " ; ".intercalate ((sortT (ltTerm strOracle) ts).map showTerm))
+    | none => (s, "bad-op")
+  | "vcmp" :: rest =>
+    match vlit? rest with
+    | some (a, rest') =>
+      match vlit? rest' with
+      | some (b, []) =>
+        let o := fun (r : Option Bool) => match r with | some r => b01 r | none => "!"
+        (s, s!"gt={b01 (pyGt a b)} lt={b01 (pyLt a b)} le={o (pyLe a b)} ge={o (pyGe a b)} eq={o (litEqV a b)} ne={o (litNeqV a b)}")
+      | _ => (s, "bad-op")
+    | none => (s, "bad-op")
+  | "vsort" :: rest =>
+    match vlits? rest with
+    | some ts => (s, " ; ".intercalate ((sortV ts).map (fun a => showTerm a.term)))
+    | none => (s, "bad-op")
+  | "msort" :: rest =>
+    match vterms? rest with
+    | some ts => (s, " ; ".intercalate ((sortVT ts).map (fun x => showTerm x.term)))
     | none => (s, "bad-op")
   | _ => (s, "bad-op")
 
